@@ -696,7 +696,7 @@ class Interp:
             return call_lemma(self, lm, args, kw)
         # contracts (modular), unless this is the unit under verification at the top of the stack
         if self.use_contracts and not self.st.merge:
-            c = self.reg.contract_for(f)
+            c = self.reg.contract_for(f, bool(self.st.ghost.get('table_contracts')))
             if c is not None and not (len(self.frames) == 0 and qn == self.top_unit):
                 if not c.inline:
                     return self.models.apply_contract(self, c, f, args, kw)
